@@ -168,12 +168,10 @@ func evRandom(u *universe, r *hx.Rand, n int, live map[int]bool, illFormed bool,
 			ev = append(ev, jevent{K: "pick", P: r.Intn(np)})
 		case x < 84:
 			var ps []int
-			seen := map[int]bool{}
 			for j := r.Intn(5); j > 0; j-- {
-				p := r.Intn(np)
-				if !seen[p] {
-					seen[p] = true
-					ps = append(ps, p)
+				ps = append(ps, r.Intn(np))
+				if r.Chance(1, 4) { // the same address twice in one batch
+					ps = append(ps, ps[r.Intn(len(ps))])
 				}
 			}
 			ev = append(ev, jevent{K: "add", Ps: ps})
@@ -350,7 +348,7 @@ func corpus() []jcase {
 		u := mkUniverse(r, map[int]int{0: 3, 1: 2, 31: 2}, []int{0, 1, 31})
 		jc := u.jcase("corpus/force-errors-and-addpeers")
 		jc.BinMax, jc.CB = 5, true
-		jc.Events = []jevent{{K: "add"}, {K: "add", Ps: []int{0}}, {K: "add", Ps: []int{0}}, {K: "add", Ps: []int{0, 1, 5}},
+		jc.Events = []jevent{{K: "add"}, {K: "add", Ps: []int{0}}, {K: "add", Ps: []int{0}}, {K: "add", Ps: []int{0, 1, 5}}, {K: "add", Ps: []int{3, 3}}, {K: "add", Ps: []int{4, 0, 4, 1}},
 			{K: "conn", P: 2}, {K: "out", P: 5}, {K: "out", P: 6}, {K: "force", P: 2, F1: true}, {K: "force", P: 2, F2: true}, {K: "force", P: 5, F2: true},
 			{K: "force", P: 5}, {K: "force", P: 0}, {K: "out", P: 1, F1: true}, {K: "disc", P: 6}, {K: "disc", P: 6}}
 		cs = append(cs, jc)
